@@ -69,7 +69,9 @@ class C13(Prop):
             self._after_reset = [float(Fr(k) * P * rng.choice([1, 1, 3])) for k in range(rng.randint(1, 4))]
         return {'period': [period, punit], 'unit': unit, 'tol': tol, 'stamps': [float(s) for s in stamps],
                 'mode': mode, 'text': rng.choice(FORMULAS), 'values': lang.gen_values(rng, n, 'small'),
-                'after_reset': self._after_reset}
+                'after_reset': self._after_reset,
+                'preconfig': ([period * rng.choice([1, 2]), punit, rng.choice([t for t in TOLS if t != tol])]
+                              if rng.random() < 0.25 else None)}
 
     def judge(self, case):
         v = Verdict()
@@ -96,7 +98,15 @@ class C13(Prop):
             text = text.replace('[0,2]', '[0,%s]' % lang.num(2 * P) if (2 * P).denominator == 1 else '[0,0]')
             sd['text'] = text
         try:
-            m = drive.Mon(kind, sd)
+            if case.get('preconfig'):
+                # the object was configured differently before: the last set_sampling_period() call counts
+                pp, ppu, ptol = case['preconfig']
+                m = drive.Mon(kind, dict(sd, period=(pp, ppu, ptol)), parse=False)
+                m.spec.set_sampling_period(period, punit, tol)
+                m.parse()
+                v.info['reconfigured'] = 1
+            else:
+                m = drive.Mon(kind, sd)
             if case['mode'].startswith('online') and case.get('after_reset'):
                 # an earlier run on the same object, then reset(): the count must be that of the new run alone
                 for j, t0 in enumerate(case['after_reset']):
